@@ -1,6 +1,7 @@
 import M3d.Basic
 import M3d.Model.FastMap
 import M3d.Model.Mesh
+import M3d.Model.MeshIter
 /-! Line-protocol handler for C09 (map histories; mesh histories are added below). Core-only. -/
 namespace M3d.Drv.C09
 open M3d M3d.FastMap
@@ -93,6 +94,26 @@ def showSet (xs : List Nat) : String :=
 def showTris (ts : List Tri) : String :=
   "{" ++ ";".intercalate ((sortBy triLt ts).map showTri) ++ "}"
 
+
+/-- Callback script `-` or `k:a:f/k:r:f/…`: during its `k`-th invocation the callback adds /
+removes face `f` (entries with the same `k` in the listed order). -/
+def parseScript (s : String) : Option (Nat → List IterAct) :=
+  if s = "-" then some (fun _ => []) else do
+    let es ← (s.splitOn "/").mapM fun e =>
+      match e.splitOn ":" with
+      | [k, "a", f] => do some ((← k.toNat?), IterAct.add (← f.toNat?))
+      | [k, "r", f] => do some ((← k.toNat?), IterAct.rem (← f.toNat?))
+      | _ => none
+    some fun k => es.filterMap fun (k', a) => if k' = k then some a else none
+
+def parseNatsComma (s : String) : Option (List Nat) :=
+  if s = "[]" then some [] else (s.splitOn ",").mapM (·.toNat?)
+
+def showSeq (xs : List Nat) : String := "[" ++ ",".intercalate (xs.map toString) ++ "]"
+
+def isPermOf (a b : List Nat) : Bool :=
+  a.length == b.length && a.eraseDups.length == a.length && a.all (b.contains ·)
+
 /-- Two mesh handles: ops act on `m`; `cp` makes `o` a `Copy()` of `m`, `sw` swaps the handles,
 `am` is `m.AddMesh(o)`.  A copy shares face pointers (ids) with its source and nothing else. -/
 partial def runMeshO (h : Nat → UInt64) (tri : Nat → Tri) (m o : Mesh.Mesh) :
@@ -135,6 +156,30 @@ partial def runMeshO (h : Nat → UInt64) (tri : Nat → Tri) (m o : Mesh.Mesh) 
   | "verts" :: rest, acc =>
       let (m', r) := m.vertexSlice h tri
       runMeshO h tri m' o rest (showSet r :: acc)
+  -- IterateSorted(f, cmp) with cmp = "position in ord" and a callback that adds/removes faces:
+  -- the visit sequence is deterministic (theorems iterate_sorted_snapshot,
+  -- iterate_visits_current_members)
+  | "its" :: ord :: sc :: rest, acc => do
+      let ord ← parseNatsComma ord; let script ← parseScript sc
+      let (m', vs) := m.iterate h tri script (sortedSnap ord m.faces)
+      runMeshO h tri m' o rest (showSeq vs :: acc)
+  -- Iterate(f) (Go map order): the harness reports the visit sequence it saw; the model is run on
+  -- a snapshot order that explains it (if there is one, the outputs agree; see Model/MeshIter)
+  | "it" :: sc :: vseq :: rest, acc => do
+      let script ← parseScript sc; let V ← parseNatsComma vseq
+      let snap := explainSnap (fun (m : Mesh.Mesh) x => decide (x ∈ m.faces))
+        (fun m k => applyActs h tri m (script k)) m m.faces V
+      let (m', vs) := m.iterate h tri script snap
+      let out := if isPermOf snap m.faces then showSeq vs else "visits-not-explained-by-any-snapshot-of-the-faces"
+      runMeshO h tri m' o rest (out :: acc)
+  | "itv" :: sc :: vseq :: rest, acc => do
+      let script ← parseScript sc; let V ← parseNatsComma vseq
+      let (m0, ix) := m.withIndex h tri
+      let snap := explainSnap (fun (m : Mesh.Mesh) p => m.hasVertex h p)
+        (fun m k => applyActs h tri m (script k)) m0 (keys ix) V
+      let (m', vs) := m.iterateVerts h tri script snap
+      let out := if isPermOf snap (keys ix) then showSeq vs else "visits-not-explained-by-any-snapshot-of-the-vertices"
+      runMeshO h tri m' o rest (out :: acc)
   -- derived meshes are specified directly from the current set of faces
   | "copy" :: rest, acc => runMeshO h tri m o rest (showSet m.faces :: acc)
   | "deep" :: rest, acc => runMeshO h tri m o rest (showTris (m.faces.map tri) :: acc)
